@@ -916,3 +916,37 @@ func init() {
 			}
 		}})
 }
+
+func init() {
+	register(&Rule{ID: "CNT.add", Min: 2, Text: "counters commute: in Counter.Increase every numeric branch stores exactly (current value + operand) — the two's-complement addition of the loaded value and the converted operand, with no clamping, saturation or other adjustment chosen by a comparison; replicas apply the same increments in different orders, and any non-associative correction (pinning at MaxInt64) makes the result depend on that order",
+		Run: func(x *Ctx) {
+			fn := x.fn(crdtPkg + ".(*Counter).Increase")
+			valF := x.P.Field(crdtPkg + ".Counter.value")
+			if fn == nil || valF == nil {
+				x.C.Unresolved(x.id(), "Counter.Increase / Counter.value")
+				return
+			}
+			n := 0
+			for _, st := range storesTo(fn, valF) {
+				n++
+				v := st.Val
+				if mi, ok := v.(*ssa.MakeInterface); ok {
+					v = mi.X
+				}
+				v = prog.Strip(v)
+				bo, ok := v.(*ssa.BinOp)
+				pure := ok && bo.Op == token.ADD
+				if pure {
+					// one operand is the current value
+					cur := func(w ssa.Value) bool {
+						return prog.DependsOn(w, func(u ssa.Value) bool { return prog.LoadedField(u) == valF })
+					}
+					pure = cur(bo.X) != cur(bo.Y)
+				}
+				x.check(pure, fmt.Sprintf("func=%s store#%d value=current+operand", prog.FnName(fn), n), x.pos(st), "the new value is the plain sum", "the counter's new value is not the plain sum of the current value and the operand (a selected, clamped or otherwise adjusted value is stored): increments no longer commute")
+			}
+			if n < 2 {
+				x.C.Vacuous(x.id()+" stores", n, 2)
+			}
+		}})
+}
